@@ -53,7 +53,7 @@ type fnSpec struct {
 }
 
 // groups in file order; a function may only call functions of its own or an earlier group
-var groups = []string{"", "Tak", "Over", "Move", "Sym", "AI", "FPA"}
+var groups = []string{"", "Tak", "Over", "Move", "Sym", "AI", "FPA", "Eval"}
 
 var whitelist = []fnSpec{
 	{dir: "bitboard", file: "bits.go", name: "Precompute", lean: "precompute"},
@@ -104,14 +104,22 @@ var whitelist = []fnSpec{
 	{dir: "cmd/internal/playtak", file: "fpa.go", name: "isCenterAdjacent", lean: "isCenterAdjacent", group: "FPA"},
 	{dir: "cmd/internal/playtak", file: "fpa.go", name: "distance", lean: "distance", group: "FPA"},
 	{dir: "cmd/internal/playtak", file: "fpa.go", name: "dir", lean: "dir", group: "FPA"},
+
+	// group Eval: ai/evaluate.go terminal scores
+	{dir: "ai", file: "evaluate.go", name: "evaluateTerminal", lean: "evaluateTerminal", group: "Eval"},
+	{dir: "ai", file: "evaluate.go", name: "EvaluateWinner", lean: "evaluateWinner", group: "Eval"},
 }
 
 // accessors: methods of abstract (non-translatable) parameters that may be read like a field.
 // The corresponding `fn.*` op passes the real method's value, so a changed accessor shows up there.
 // A non-whitelisted method listed here whose result is a tuple becomes one parameter of product type.
 var accessors = map[string]bool{
-	"tak.Position.Size":    true,
-	"tak.Position.hasRoad": true,
+	"tak.Position.Size":        true,
+	"tak.Position.hasRoad":     true,
+	"tak.Position.WhiteStones": true,
+	"tak.Position.BlackStones": true,
+	"tak.Position.MoveNumber":  true,
+	"tak.Position.WinDetails":  true,
 }
 
 // intrinsics: functions of the repository that only wrap a math/bits intrinsic are mapped to the
@@ -200,6 +208,7 @@ type viewInfo struct {
 
 type paramInfo struct {
 	abstract bool
+	skip     bool       // blank / unnamed Go parameter: no Lean parameter
 	views    []viewInfo // sorted by joined name
 }
 
@@ -283,6 +292,22 @@ func basicType(ty types.Type) ltype {
 		return ltype{c: tBool}
 	}
 	return ltype{c: tBad}
+}
+
+// abstractable: a (pointer to a) named struct or array type; its reads become parameters
+func abstractable(ty types.Type) bool {
+	if p, ok := ty.(*types.Pointer); ok {
+		ty = p.Elem()
+	}
+	n, ok := ty.(*types.Named)
+	if !ok {
+		return false
+	}
+	switch n.Underlying().(type) {
+	case *types.Struct, *types.Array:
+		return true
+	}
+	return false
 }
 
 // structOK: every field (recursively) has a translatable type
@@ -434,7 +459,7 @@ func (t *tr) absOf(id *ast.Ident) *absParam {
 }
 
 func (t *tr) view(a *absParam, path []string, ty ltype) string {
-	name := a.name + "_" + strings.Join(path, "_")
+	name := a.name + "_" + strings.NewReplacer("[", "", "]", "").Replace(strings.Join(path, "_"))
 	a.views[name] = viewInfo{path: path, ty: ty}
 	return name
 }
@@ -478,6 +503,23 @@ func (t *tr) expr(e ast.Expr) string {
 			return t.expr(e.X) + "." + safe(e.Sel.Name)
 		}
 		t.fail(e, "selector")
+	case *ast.IndexExpr:
+		// w[K] with a constant index on an abstract array parameter -> parameter w_K
+		id, _ := e.X.(*ast.Ident)
+		a := t.absOf(id)
+		itv := t.p.info.Types[e.Index]
+		if a == nil || itv.Value == nil {
+			t.fail(e, "index expression (only constant indices into an abstract array parameter)")
+			return "?"
+		}
+		name := constant.ToInt(itv.Value).ExactString()
+		switch ix := e.Index.(type) {
+		case *ast.Ident:
+			name = ix.Name
+		case *ast.SelectorExpr:
+			name = ix.Sel.Name
+		}
+		return t.view(a, []string{"[" + name + "]"}, t.typeOf(e))
 	case *ast.UnaryExpr:
 		x := t.expr(e.X)
 		ty := t.typeOf(e.X)
@@ -607,6 +649,9 @@ func (t *tr) call(e *ast.CallExpr) string {
 	var args []string
 	for i, a := range goArgs {
 		pi := callee.params[i]
+		if pi.skip {
+			continue
+		}
 		if !pi.abstract {
 			args = append(args, t.expr(a))
 			continue
@@ -1444,6 +1489,7 @@ type sigParam struct {
 	name     string
 	ty       ltype
 	abstract bool
+	skip     bool
 }
 
 func (t *tr) signature(recv *ast.FieldList, ft *ast.FuncType) (ps []sigParam, rt ltype, pre string) {
@@ -1455,7 +1501,7 @@ func (t *tr) signature(recv *ast.FieldList, ft *ast.FuncType) (ps []sigParam, rt
 		}
 		lt := t.ltypeOf(obj.Type())
 		if lt.c == tBad {
-			if _, st := namedStruct(obj.Type()); st != nil {
+			if abstractable(obj.Type()) {
 				t.abs[obj] = &absParam{name: n.Name, views: map[string]viewInfo{}}
 				ps = append(ps, sigParam{obj: obj, name: n.Name, abstract: true})
 				return
@@ -1472,11 +1518,12 @@ func (t *tr) signature(recv *ast.FieldList, ft *ast.FuncType) (ps []sigParam, rt
 	for _, l := range lists {
 		for _, fl := range l.List {
 			if len(fl.Names) == 0 {
-				t.fail(fl, "unnamed parameter")
+				ps = append(ps, sigParam{skip: true}) // unnamed: nothing can read it
 			}
 			for _, n := range fl.Names {
 				if n.Name == "_" {
-					t.fail(fl, "blank parameter")
+					ps = append(ps, sigParam{skip: true})
+					continue
 				}
 				add(n)
 			}
@@ -1520,6 +1567,10 @@ func (t *tr) paramList(ps []sigParam) (string, []paramInfo) {
 	var out []string
 	var infos []paramInfo
 	for _, p := range ps {
+		if p.skip {
+			infos = append(infos, paramInfo{skip: true})
+			continue
+		}
 		if !p.abstract {
 			out = append(out, fmt.Sprintf("(%s : %s)", p.name, p.ty.lean()))
 			infos = append(infos, paramInfo{})
